@@ -527,9 +527,7 @@ func c06R2File(c *Ctx) {
 			continue
 		}
 		tn := FnName(fn)
-		effects := c06FsEffectCalls(fn, func(n string) bool {
-			return isFs(n) || n == "(*sync.Map).Store" && false
-		})
+		effects := c06FsEffectCalls(fn, isFs)
 		// also calls that record digests (Add computes and records without fs mutation for plain files)
 		for _, call := range Calls(fn, func(string) bool { return true }) {
 			if g := StaticCallee(call); g != nil && inModule(g) && reachesCall(g, 3, func(n string, cc ssa.CallInstruction) bool {
